@@ -1,15 +1,20 @@
 def sig(fl):
-    """label of a rejected segment (diagnostics / known-finding key only; the verdict was TLC's)"""
+    """coarse label of a rejected segment (diagnostics / known-finding key only; the verdict was TLC's)"""
     seg = fl["segment"]
     cas = seg[0]
     e = fl["event"]
     if cas.get("kind") == "admit":
         n = cas.get("new", {})
-        return "admit opn=%s qos=%s pcl=%s prio=%s allowed=%s" % (cas.get("opn"), n.get("qos"), n.get("pcl"), n.get("prio"), e.get("allowed"))
+        return "admit opn=%s qos=%s allowed=%s" % (cas.get("opn"), n.get("qos"), e.get("allowed"))
     if cas.get("kind") == "mutate":
-        o = e.get("out", {}) if isinstance(e.get("out"), dict) else {}
-        return "mutate opn=%s qos=%s pcl=%s prio=%s match=%s op=%s" % (
-            cas.get("opn"), o.get("qos"), o.get("pcl"), o.get("prio"), ",".join(cas.get("match", [])), e.get("op"))
+        o = e.get("out") if isinstance(e.get("out"), dict) else None
+        i = cas.get("pod", {})
+        if o is None:
+            return "mutate op=%s" % e.get("op")
+        touched = any(o.get(k) != i.get(k) for k in ("cs", "ics", "oh"))
+        again = e.get("out2") != o
+        return "mutate op=%s spec_touched=%s summary=%s second_pass_differs=%s" % (
+            e.get("op"), touched, "present" if o.get("ann") else "empty", again)
     return "op=%s" % e.get("op")
 
 
@@ -23,6 +28,9 @@ CONF = {
            {"pkg": "pkg/webhook/pod/mutating", "test": "TestVerifC13"}],
     "trace": {"module": "PodAdmissionTrace", "cfg": "Trace.cfg"},
     "signature": sig,
+    # ADMIT trace: its only observation is the top-level boolean "allowed"; the statement is one-directional
+    # ("admitted only if"), so corrupting allowed:true -> false is legitimately accepted and the generic binding
+    # self-test is not applied to it (default keys find nothing there); the pair/whole-CPU mutants show the binding.
     "rule": "one segment per case (abstract pod / update pair / pod + matching profiles); distinct by content; "
             "non-trivial = has the verdict / mutated event",
     "assumptions": [
